@@ -24,6 +24,10 @@ VALIDITIES = {
     'bad13': '2020-13', 'badx': 'x', 'badt13': (2020, 13), 'badf': 1.5,
     'bad4': '2020-03-15-01', 'bady0': 0,
 }
+from collections import namedtuple      # noqa: E402
+YearMonth = namedtuple('YearMonth', 'year month')
+VALIDITIES['m03nt'] = YearMonth(2020, 3)        # a tuple subclass
+VALIDITIES['m03t3'] = (2020, 3, 15)             # more than two entries
 V_QUICK = ['none', 'y2020', 'y2020s', 'm03', 'd15s', 'bad13']
 V_ALL = list(VALIDITIES)
 
